@@ -32,6 +32,8 @@ pub struct InstanceState {
     most_recent_disposed_generation_count: i32,
     most_recent_no_writers_generation_count: i32,
     last_received_time_stamp: Time,
+    /// Writers known to have the instance registered
+    live_writer_list: Vec<[u8; 16]>,
 }
 
 impl InstanceState {
@@ -43,17 +45,35 @@ impl InstanceState {
             most_recent_disposed_generation_count: 0,
             most_recent_no_writers_generation_count: 0,
             last_received_time_stamp: Time::new(TIME_INVALID_SEC, TIME_INVALID_NSEC),
+            live_writer_list: Vec::new(),
         }
     }
 
-    pub fn update_state(&mut self, change_kind: ChangeKind, now: Option<Time>) {
+    pub fn update_state(
+        &mut self,
+        change_kind: ChangeKind,
+        writer_guid: [u8; 16],
+        now: Option<Time>,
+    ) {
+        // A writer has the instance registered from its first sample until it unregisters it
+        match change_kind {
+            ChangeKind::Alive | ChangeKind::AliveFiltered | ChangeKind::NotAliveDisposed => {
+                if !self.live_writer_list.contains(&writer_guid) {
+                    self.live_writer_list.push(writer_guid);
+                }
+            }
+            ChangeKind::NotAliveUnregistered | ChangeKind::NotAliveDisposedUnregistered => {
+                self.live_writer_list.retain(|x| x != &writer_guid);
+            }
+        }
+
         match self.instance_state {
             InstanceStateKind::Alive => {
                 if change_kind == ChangeKind::NotAliveDisposed
                     || change_kind == ChangeKind::NotAliveDisposedUnregistered
                 {
                     self.instance_state = InstanceStateKind::NotAliveDisposed;
-                } else if change_kind == ChangeKind::NotAliveUnregistered {
+                } else if self.live_writer_list.is_empty() {
                     self.instance_state = InstanceStateKind::NotAliveNoWriters;
                 }
             }
@@ -77,6 +97,14 @@ impl InstanceState {
 
         if let Some(t) = now {
             self.last_received_time_stamp = t;
+        }
+    }
+
+    /// The writer is gone (e.g. deleted or its liveliness was lost) without unregistering the instance
+    pub fn remove_writer(&mut self, writer_guid: &[u8; 16]) {
+        self.live_writer_list.retain(|x| x != writer_guid);
+        if self.instance_state == InstanceStateKind::Alive && self.live_writer_list.is_empty() {
+            self.instance_state = InstanceStateKind::NotAliveNoWriters;
         }
     }
 
@@ -311,10 +339,12 @@ impl<T> DataReaderEntity<T> {
                     .iter_mut()
                     .find(|x| x.handle() == &instance_handle)
                 {
-                    Some(x) => x.update_state(change_kind, Some(reception_timestamp)),
+                    Some(x) => {
+                        x.update_state(change_kind, writer_guid.into(), Some(reception_timestamp))
+                    }
                     None => {
                         let mut s = InstanceState::new(instance_handle);
-                        s.update_state(change_kind, Some(reception_timestamp));
+                        s.update_state(change_kind, writer_guid.into(), Some(reception_timestamp));
                         self.instances.push(s);
                     }
                 }
@@ -329,7 +359,11 @@ impl<T> DataReaderEntity<T> {
                     .find(|x| x.handle() == &instance_handle)
                 {
                     Some(instance) => {
-                        instance.update_state(change_kind, Some(reception_timestamp));
+                        instance.update_state(
+                            change_kind,
+                            writer_guid.into(),
+                            Some(reception_timestamp),
+                        );
                         Ok(())
                     }
                     None => Err(DdsError::Error(
@@ -517,10 +551,12 @@ impl<T> DataReaderEntity<T> {
                     .iter_mut()
                     .find(|x| x.handle() == &sample.instance_handle)
                 {
-                    Some(x) => x.update_state(sample.kind, Some(reception_timestamp)),
+                    Some(x) => {
+                        x.update_state(sample.kind, sample.writer_guid, Some(reception_timestamp))
+                    }
                     None => {
                         let mut s = InstanceState::new(sample.instance_handle);
-                        s.update_state(sample.kind, Some(reception_timestamp));
+                        s.update_state(sample.kind, sample.writer_guid, Some(reception_timestamp));
                         self.instances.push(s);
                     }
                 }
@@ -535,7 +571,11 @@ impl<T> DataReaderEntity<T> {
                     .find(|x| x.handle() == &sample.instance_handle)
                 {
                     Some(instance) => {
-                        instance.update_state(sample.kind, Some(reception_timestamp));
+                        instance.update_state(
+                            sample.kind,
+                            sample.writer_guid,
+                            Some(reception_timestamp),
+                        );
                         Ok(())
                     }
                     None => Err(DdsError::Error(
@@ -573,6 +613,14 @@ impl<T> DataReaderEntity<T> {
             });
         }
         Ok(AddChangeResult::Added)
+    }
+
+    /// To be called when a writer is not matched any longer: it stops being a live writer of the
+    /// instances it had registered
+    pub fn remove_instance_writer(&mut self, writer_guid: &[u8; 16]) {
+        for instance in self.instances.iter_mut() {
+            instance.remove_writer(writer_guid);
+        }
     }
 
     pub fn get_matched_publications(&self) -> Vec<InstanceHandle> {
